@@ -117,12 +117,41 @@ class Frame:
         ov = V.cur().ghost.get("globals") if V._current else None
         if ov and name in ov:
             return ov[name]
+        cell = self._real_closure_cell(name)
+        if cell is not None:
+            return cell[0]
         g = self.mod.real.__dict__
         if name in g:
             return g[name]
         if hasattr(_bi, name):
             return getattr(_bi, name)
         raise PyRaise(SExc(NameError, (name,)))
+
+    def _real_closure_cell(self, name):
+        """A free variable of a method of a class that was created inside a function call (e.g. the mixin classes made
+        by `delegate_to_widget_mixin(attribute_name)`): the enclosing call is long over, so the variable's value is
+        what the REAL function object's closure cell holds (CPython: `fn.__closure__[fn.__code__.co_freevars.index(name)]`).
+        Only for methods reached through a real class (`defcls`) whose qualified name has a `<locals>` part; returns a
+        1-tuple (value,) or None.  Cross-check against CPython: static check `engine-rules-agree-with-cpython`, contracts/C19_gridflow.py."""
+        f = self
+        while f is not None and (f.fn is None or f.fn.defcls is None):
+            f = f.parent
+        if f is None or "<locals>" not in getattr(f.fn.defcls, "__qualname__", ""):
+            return None
+        raw = inspect.getattr_static(f.fn.defcls, f.fn.ref.node.name, None)
+        if isinstance(raw, property):
+            raw = raw.fset if f.fn.ref.role == "setter" else raw.fget
+        raw = getattr(raw, "__func__", raw)
+        # (WidgetMeta wraps render / rows with functools.wraps'd cache wrappers: the method whose AST runs is the wrapped one)
+        while name not in getattr(getattr(raw, "__code__", None), "co_freevars", ()) and hasattr(raw, "__wrapped__"):
+            raw = raw.__wrapped__
+        code, cells = getattr(raw, "__code__", None), getattr(raw, "__closure__", None)
+        if code is None or not cells or name not in code.co_freevars:
+            return None
+        try:
+            return (cells[code.co_freevars.index(name)].cell_contents,)
+        except ValueError:  # empty cell
+            return None
 
     def assign(self, name, value, nonlocal_names=()):
         if name in getattr(self, "global_names", ()):
@@ -737,6 +766,12 @@ class Interp:
             try:
                 cur = fr.lookup(n)
             except PyRaise:
+                if n in spec.shapes and n in names:
+                    # first assigned inside the loop, but READ by later iterations before they assign it (a "current
+                    # row" kind of variable): LoopSpec.shapes names its shape, the arbitrary iteration starts with a
+                    # value of that shape and the invariant says what it is.  (In the very first iteration CPython has
+                    # the name unbound; a read there would be an UnboundLocalError, which this does not report.)
+                    fr.locals[n] = spec.shapes[n].fresh(st, n)
                 continue  # first assigned inside the loop
             if isinstance(cur, ModelObj):
                 if hasattr(cur, "py_havoc"):
@@ -1413,6 +1448,17 @@ class Interp:
         if isinstance(v, SObj):
             if v.base_list:
                 return self.truth(st, v.fields[v.base_list])
+            # CPython: bool(obj) is obj.__bool__() if the class defines it, else len(obj) != 0 if the class defines
+            # __len__ (an empty Pile / Columns / GridFlow is falsy), else True.  Only repository definitions are
+            # followed (cross-check against CPython: static check `engine-rules-agree-with-cpython`, contracts/C19_gridflow.py).
+            for dunder in ("__bool__", "__len__"):
+                cls, ref = SRC.mro_lookup(v.cls, dunder) if isinstance(v.cls, type) else (None, None)
+                if cls is None or cls is object:
+                    continue
+                if ref is None:
+                    raise Unsupported(f"truth of {v.cls.__name__}: {dunder} is not a repository function")
+                r = self.call(st, self.getattr(st, v, dunder), [])
+                return self.truth(st, r) if dunder == "__bool__" else self.truth(st, V._cmp("!=", r, 0) if isinstance(r, Sym) else r != 0)
             return True
         if isinstance(v, (SOpaque, FnVal, Method, SSlice, SExc)):
             t = getattr(v, "meta", {}).get("truth") if isinstance(v, SOpaque) else None
@@ -1436,11 +1482,21 @@ class Interp:
                 raise PyRaise(SExc(AttributeError, (name,)))
             if ref is None:
                 return Method(("super", obj.obj, cls), name)
+            if ref.role == "getter":
+                # super().name where `name` is a property of the next class in the MRO: CPython runs its getter on the
+                # object (descriptor protocol), e.g. the delegating `rows` / `pack` properties of WidgetWrap's mixin
+                return self.call_fnval(st, FnVal(ref, None, obj.obj, cls), [], {})
             return self.decorate_method(st, FnVal(ref, None, None, cls), obj.obj)
         if isinstance(obj, SObj):
             return self.obj_getattr(st, obj, name)
         if isinstance(obj, SOpaque):
             return self.task.opaque_getattr(self, st, obj, name)
+        if isinstance(obj, ModelObj) and hasattr(obj, "py_getattr"):
+            # a model object with data attributes (e.g. the model of a widget built by the code under verification):
+            # `py_getattr(ip, st, name)` answers them; NotImplemented falls through to "a method of the model"
+            r = obj.py_getattr(self, st, name)
+            if r is not NotImplemented:
+                return r
         if getattr(obj, "is_text", False) or isinstance(obj, ModelObj):
             return Method(obj, name)
         if isinstance(obj, (LRef, SSlice, SSeq, DRef, SRange)):
@@ -1570,6 +1626,8 @@ class Interp:
             return
         if isinstance(obj, SOpaque):
             return self.task.opaque_setattr(self, st, obj, name, value)
+        if isinstance(obj, ModelObj) and hasattr(obj, "py_setattr"):
+            return obj.py_setattr(self, st, name, value)  # attribute store on a model object: the model decides
         raise Unsupported(f"attribute assignment on {type(obj).__name__}")
 
     def eval_index(self, st, sl, fr):
